@@ -4,7 +4,7 @@
    unchecked, never rejected.  Definitions only. *)
 From Coq Require Import List Arith Bool.
 Import ListNotations.
-From Heph Require Import Types.Syntax Types.Subst Types.Subtype Types.Decl Types.Corr IR.Syntax.
+From Heph Require Import Types.Syntax Types.Subst Types.Subtype Types.Decl Types.Corr Types.TableOk IR.Syntax.
 
 (* ---------- language description (filled in by the harness from the imported factory) ---------- *)
 Record lang := {
@@ -71,7 +71,9 @@ Inductive tres := TOk (t : ty) | TBot | TUnk.
    non-regular class  16 abstract member not implemented  17 incompatible override
    18 inheritance from a final class  19 default value  20 condition is not Boolean
    21 identifier declared twice in one scope  22 reserved word  23 non-final local captured by a Java lambda
-   24 type variable not in scope *)
+   24 type variable not in scope
+   25 (inference mode) erased return type of a function that calls itself
+   26 (inference mode) erased type arguments that nothing determines *)
 Definition err := (list nat * nat * option ty * option ty)%type.   (* path, code, actual type, expected type *)
 Definition mkerr (p : list nat) (c : nat) : err := (p, c, None, None).
 
@@ -80,7 +82,8 @@ Record env := {
   e_funcs : list func;                          (* local (nested) functions, innermost first *)
   e_cls : option cls;                           (* enclosing class *)
   e_lambda_depth : nat;                         (* number of variables that were declared outside the innermost Java lambda *)
-  e_in_lambda : bool
+  e_in_lambda : bool;
+  e_cur : nat                                   (* name of the enclosing function whose declared return type was erased (0 = none) *)
 }.
 
 Section Checker.
@@ -356,7 +359,7 @@ Section Checker.
                 let Gt := match c with
                           | N 22 _ _ [false] [Some ct] [N 16 x _ _ _ _] =>
                               {| e_vars := (x, Some ct, true) :: e_vars G; e_funcs := e_funcs G; e_cls := e_cls G;
-                                 e_lambda_depth := e_lambda_depth G; e_in_lambda := e_in_lambda G |}
+                                 e_lambda_depth := e_lambda_depth G; e_in_lambda := e_in_lambda G; e_cur := e_cur G |}
                           | _ => G
                           end in
                 let '(ttr, e2) := chk fu Gt (path ++ [1]) exp t in
@@ -409,7 +412,11 @@ Section Checker.
                     | None => (TOk ct, ers ++ (if c <? 90 then [mkerr (path) 12] else []))
                     | Some cl =>
                         (TOk ct,
-                         ers ++ (if Nat.eqb (cl_kind cl) 0 then [] else [mkerr (path) 15]) ++
+                         ers ++ (if infer && flag e 0 && is_none exp &&
+                                    existsb (fun tv => negb (existsb (fun fd => match fd_ty fd with Some t => occurs tv t | None => false end)
+                                                                     (cl_fields cl))) (cl_tparams cl)
+                                 then [mkerr path 26] else []) ++
+                                (if Nat.eqb (cl_kind cl) 0 then [] else [mkerr (path) 15]) ++
                          (if Nat.eqb (length ts) (length fts) then [] else [mkerr (path) 13]) ++
                          (if targs_ok (cl_tparams cl) args [] then [] else [mkerr (path) 8]))
                     end
@@ -503,8 +510,23 @@ Section Checker.
                   let m' := (if explicit then mk_map (fn_tparams fn) targs else []) ++ m in
                   let unknown := (generic && negb explicit) || negb usable in
                   let ers := chk_args 2 m' (fn_params fn) off args unknown in
+                  let same_class := match recv, tr with
+                                    | None, _ => true
+                                    | Some _, TOk rt => match class_of_ty rt, e_cls G with
+                                                        | Some (c, _), Some cl => Nat.eqb c (cl_cid cl)
+                                                        | _, _ => false
+                                                        end
+                                    | Some _, _ => false
+                                    end in
+                  let rec_err := if infer && negb (Nat.eqb (e_cur G) 0) && Nat.eqb (name_of_node e) (e_cur G) && same_class
+                                 then [mkerr path 25] else [] in
+                  let undet := if infer && flag e 1 && generic && is_none exp &&
+                                  existsb (fun tv => negb (existsb (fun p => match fp_ty p with Some t => occurs tv t | None => false end)
+                                                                   (fn_params fn))) (fn_tparams fn)
+                               then [mkerr path 26] else [] in
                   (if unknown then TUnk else read_ty (option_map (subst false m') (fn_ret fn)),
-                   er ++ ers ++ (if explicit && negb (targs_ok (fn_tparams fn) targs m) then [mkerr (path) 8] else []))
+                   er ++ ers ++ rec_err ++ undet ++
+                   (if explicit && negb (targs_ok (fn_tparams fn) targs m) then [mkerr (path) 8] else []))
               end
         | 26 => match kids with [x] => chk fu G (path ++ [0]) exp x | _ => (TUnk, []) end
         | 27 => (* FunctionReference *)
@@ -519,10 +541,21 @@ Section Checker.
                 | TOk rt =>
                     match find_field 12 rt (name_of_node e) with
                     | Some (ft, fin) =>
-                        let ft' := if usable_receiver rt then ft else None in
+                        (* writing through a projected receiver: a field whose type is the projected
+                           parameter itself accepts only the bottom value (out / star) or a value of the
+                           lower bound (in); a field type that mentions no projection is checked as usual *)
+                        let only_bottom := negb (usable_receiver rt) &&
+                                           match ft with Some (TWild Cov _) | Some (TWild _ None) => true | _ => false end in
+                        let ft' := if usable_receiver rt then ft
+                                   else match ft with
+                                        | Some (TWild Contra (Some l)) => Some l
+                                        | Some t => if is_wild t || has_wildcards t then None else Some t
+                                        | None => None
+                                        end in
                         let '(tx, e2) := chk fu G (path ++ [1]) ft' x in
                         (TUnk, e1 ++ e2 ++ (if fin then [mkerr (path) 14] else []) ++
-                               (if negb (usable_receiver rt) then [] else chk_assign tx ft path 7))
+                               (if only_bottom then match tx with TOk a => [(path, 7, Some a, ft)] | _ => [] end
+                                else chk_assign tx ft' path 7))
                     | None => (TUnk, e1 ++ snd (chk fu G (path ++ [1]) None x) ++
                                      (match class_of_ty rt with Some _ => [mkerr (path) 11] | None => [] end))
                     end
@@ -546,7 +579,7 @@ Section Checker.
             let body := filter (fun c => negb (Nat.eqb (kind_of c) kParamDecl)) kids in
             let G' := {| e_vars := rev (map (fun p => (name_of_node p, nth_ty p 0, true)) ps) ++ e_vars G;
                          e_funcs := e_funcs G; e_cls := e_cls G;
-                         e_lambda_depth := length ps; e_in_lambda := true |} in
+                         e_lambda_depth := length ps; e_in_lambda := true; e_cur := e_cur G |} in
             let ers := match body with
                        | [b] => let '(tb, eb) := chk fu G' (path ++ [length ps]) (nth_ty e 0) b in
                                 eb ++ (match nth_ty e 0 with
@@ -574,13 +607,13 @@ Section Checker.
                        let dup := if existsb (Nat.eqb (name_of_node s)) seen then [mkerr (path ++ [i]) 21] else [] in
                        let kwe := if existsb (Nat.eqb (name_of_node s)) kw then [mkerr (path ++ [i]) 22] else [] in
                        let G' := {| e_vars := (name_of_node s, vt, flag s 0) :: e_vars G; e_funcs := e_funcs G; e_cls := e_cls G;
-                                    e_lambda_depth := S (e_lambda_depth G); e_in_lambda := e_in_lambda G |} in
+                                    e_lambda_depth := S (e_lambda_depth G); e_in_lambda := e_in_lambda G; e_cur := e_cur G |} in
                        let '(r, er) := go (S i) G' (name_of_node s :: seen) l' TUnk in
                        (r, ei ++ (chk_assign ti (vt) (path ++ [i]) 1) ++ dup ++ kwe ++ er)
                    | 4 => (* nested function *)
                        let fn := mk_func s in
                        let G' := {| e_vars := e_vars G; e_funcs := fn :: e_funcs G; e_cls := e_cls G;
-                                    e_lambda_depth := e_lambda_depth G; e_in_lambda := e_in_lambda G |} in
+                                    e_lambda_depth := e_lambda_depth G; e_in_lambda := e_in_lambda G; e_cur := e_cur G |} in
                        let ef := chk_func fu G' (path ++ [i]) s (l_java_lambda L) in
                        let dup := if existsb (Nat.eqb (name_of_node s)) seen then [mkerr (path ++ [i]) 21] else [] in
                        let '(r, er) := go (S i) G' (name_of_node s :: seen) l' TUnk in
@@ -611,13 +644,15 @@ Section Checker.
         let G' := {| e_vars := rev (map (fun p => (name_of_node p, nth_ty p 0, true)) ps) ++ e_vars G;
                      e_funcs := e_funcs G; e_cls := e_cls G;
                      e_lambda_depth := if as_lambda then length ps else length ps + length (e_vars G);
-                     e_in_lambda := as_lambda || e_in_lambda G |} in
-        let rt := func_ret f in
-        let is_unit := match rt with Some (TBuiltin u _) => Nat.eqb u (l_unit L) | _ => false end in
+                     e_in_lambda := as_lambda || e_in_lambda G;
+                     e_cur := if infer && (match nth_ty f 0 with None => true | Some _ => false end) then name_of_node f else 0 |} in
+        let erased := infer && (match nth_ty f 0 with None => true | Some _ => false end) in
+        let rt := if erased then None else func_ret f in
+        let is_unit := match func_ret f with Some (TBuiltin u _) => Nat.eqb u (l_unit L) | _ => false end in
         match body with
         | [b] =>
             let '(tb, eb) := chk fu G' (path ++ [length ps]) (if is_unit then None else rt) b in
-            defaults ++ dupp ++ eb ++ (if is_unit then [] else chk_assign tb rt path 5)
+            defaults ++ dupp ++ eb ++ (if is_unit || erased then [] else chk_assign tb rt path 5)
         | _ => defaults ++ dupp
         end
     end.
@@ -626,7 +661,7 @@ End Checker.
 (* ---------- whole programs ---------- *)
 
 Definition fresh_env (c : option cls) (vars : list (nat * option ty * bool)) : env :=
-  {| e_vars := vars; e_funcs := []; e_cls := c; e_lambda_depth := 0; e_in_lambda := false |}.
+  {| e_vars := vars; e_funcs := []; e_cls := c; e_lambda_depth := 0; e_in_lambda := false; e_cur := 0 |}.
 
 (* inherited abstract functions of a class: walks the supertypes *)
 Fixpoint abstract_funcs (fuel : nat) (cs : list cls) (t : ty) : list (func * list (ty * ty)) :=
@@ -690,18 +725,35 @@ Definition check_program (infer strict : bool) (L : lang) (cn : list (nat * nat)
   let cs := classes_of cn p in
   let w := world_of cs bclasses bt arr in
   let topfuncs := map mk_func (kids_of_kind kFuncDecl p) in
-  let topvars := map (fun v => (name_of_node v, match nth_ty v 0 with Some t => Some t | None => nth_ty v 1 end, flag v 0))
-                     (kids_of_kind kVarDecl p) in
   let fuel := 60 in
+  let topvars0 := map (fun v => (name_of_node v, match nth_ty v 0 with Some t => Some t | None => nth_ty v 1 end, flag v 0))
+                      (kids_of_kind kVarDecl p) in
+  (* inference mode: a top-level variable whose declared type was removed gets the type synthesised
+     for its initializer (typed in the environment of the recorded types) *)
+  let topvars :=
+    if infer then
+      map (fun v => (name_of_node v,
+                     match nth_ty v 0 with
+                     | Some t => Some t
+                     | None => match kids_of v with
+                               | [x] => match fst (chk infer false L w cs topfuncs topvars0 kw fuel (fresh_env None []) [] None x) with
+                                        | TOk t => Some t
+                                        | _ => nth_ty v 1
+                                        end
+                               | _ => nth_ty v 1
+                               end
+                     end, flag v 0)) (kids_of_kind kVarDecl p)
+    else topvars0 in
   flat_map
     (fun id =>
        let '(i, d) := id in
        match kind_of d with
        | 6 => (* top-level variable *)
            let '(ti, ei) := match kids_of d with
-                            | [x] => chk infer strict L w cs topfuncs topvars kw fuel (fresh_env None []) [i; 0] (match nth_ty d 0 with Some t => Some t | None => nth_ty d 1 end) x
+                            | [x] => chk infer strict L w cs topfuncs topvars kw fuel (fresh_env None []) [i; 0]
+                                         (match nth_ty d 0 with Some t => Some t | None => if infer then None else nth_ty d 1 end) x
                             | _ => (TUnk, []) end in
-           ei ++ (chk_assign strict w ti ((match nth_ty d 0 with Some t => Some t | None => nth_ty d 1 end)) ([i]) 1)
+           ei ++ (chk_assign strict w ti (match nth_ty d 0 with Some t => Some t | None => if infer then None else nth_ty d 1 end) ([i]) 1)
               ++ (if existsb (Nat.eqb (name_of_node d)) kw then [mkerr ([i]) 22] else [])
        | 4 => chk_func infer strict L w cs topfuncs topvars kw fuel (fresh_env None []) [i] d false
               ++ (if existsb (Nat.eqb (name_of_node d)) kw then [mkerr ([i]) 22] else [])
@@ -736,7 +788,32 @@ Definition check_program (infer strict : bool) (L : lang) (cn : list (nat * nat)
                          | None => []
                          end
                        else if Nat.eqb (kind_of s) kFuncDecl then
-                         chk_func infer strict L w cs topfuncs topvars kw fuel G [i; j] s false
+                         chk_func infer strict L w cs topfuncs topvars kw fuel G [i; j] s false ++
+                         (* an overriding function has the parameter types of the function it overrides (with the
+                            supertype's arguments substituted) and an assignable return type *)
+                         (if flag s 1 then
+                            let fn := mk_func s in
+                            match (fix up (l : list ty) : option (func * list (ty * ty)) :=
+                                     match l with
+                                     | [] => None
+                                     | st :: l' => match find_method cs 12 st (fn_name fn) with Some r => Some r | None => up l' end
+                                     end) (cl_supers cl) with
+                            | None => [mkerr [i; j] 17]
+                            | Some (sfn, m) =>
+                                if negb (Nat.eqb (length (fn_tparams sfn)) 0) || negb (Nat.eqb (length (fn_tparams fn)) 0) then []
+                                else if negb (Nat.eqb (length (fn_params fn)) (length (fn_params sfn))) then [mkerr [i; j] 17]
+                                else
+                                  (if forallb (fun pq => match fp_ty (fst pq), fp_ty (snd pq) with
+                                                         | Some a, Some b0 => py_eqb a (subst false m b0)
+                                                         | _, _ => true
+                                                         end) (combine (fn_params fn) (fn_params sfn))
+                                   then [] else [mkerr [i; j] 17]) ++
+                                  (match fn_ret fn with
+                                   | Some r => chk_assign strict w (read_ty (Some r)) (option_map (subst false m) (fn_ret sfn)) [i; j] 17
+                                   | None => []
+                                   end)
+                            end
+                          else [])
                        else [])
                     (combine (seq 0 (length (kids_of d))) (kids_of d)) ++
            (* a regular class implements every inherited abstract function *)
